@@ -439,6 +439,14 @@ func runManyBlocks(c *core.Ctx, B int) {
 			{"box over 3x3x2 blocks", 1, []Part{{Kind: "box", C: [3]float64{9, 9, 6}, Size: [3]float64{13, 13, 4}}}},
 			{"diagonal capsule", 1, []Part{{Kind: "capsule", C: [3]float64{-3.5, -2.5, 1.5}, R: 0.9, E: [3]float64{14, 13, 9}}}},
 		}
+		// unions of many parts (CombineFields looks its parts up in a spatial index whose depth grows with their number)
+		for _, n := range []int{8, 22, 23, 24, 40, 70, 200} {
+			var parts []Part
+			for i := 0; i < n; i++ {
+				parts = append(parts, Part{Kind: "sphere", C: [3]float64{1.5 + 1.2*float64(i%35), 2.5 + 0.3*float64(i%3) + 3.5*float64(i/35), 2.5}, R: 0.9})
+			}
+			ls = append(ls, long{fmt.Sprintf("union of %d overlapping spheres", n), 1, parts})
+		}
 	}
 	var names []string
 	procs := []int{0, 2, 3, 4, 5}
